@@ -451,7 +451,7 @@ Qed.
 Lemma ring_of_rotl k p : clean p -> ring_of (rotl k p) = rotl k (ring_of p).
 Proof.
   revert p; induction k as [|k IH]; intros p H; [reflexivity|].
-  rewrite !rotl_S, IH by (apply clean_rot1, H). rewrite ring_of_rot1 by exact H. reflexivity.
+  rewrite (rotl_S k p), (rotl_S k (ring_of p)), IH by (apply clean_rot1, H). rewrite ring_of_rot1 by exact H. reflexivity.
 Qed.
 
 (* the ring vertices carrying the LocalMin flag *)
@@ -540,7 +540,7 @@ Proof.
   unfold add_path at 1. rewrite (strip_insert_dups m c _ _ Hc).
   destruct c as [|c].
   - rewrite app_nil_r. unfold add_path. rewrite (strip_clean _ _ Hc). reflexivity.
-  - unfold add_path at 2. rewrite (strip_clean _ _ Hc).
+  - unfold add_path. rewrite (strip_clean _ _ Hc).
     cbv zeta.
     assert (Hd : drop_closing ((a :: b :: b2 :: t) ++ [a]) = a :: b :: b2 :: t).
     { unfold drop_closing. cbn [app]. change (a :: b :: b2 :: t ++ [a]) with ((a :: b :: b2 :: t) ++ [a]).
@@ -573,10 +573,10 @@ Proof.
   apply cyc_kinds_alternate.
 Qed.
 
-(* satisfiable: a concave hexagon is clean and has two minima and two maxima *)
+(* satisfiable: a concave hexagon is clean and has three minima and three maxima (y grows downwards) *)
 Example clean_witness :
   let p := [(0,0);(4,6);(8,0);(8,10);(4,4);(0,10)] in
-  clean p /\ exists r, add_path p = Ring r [3%nat; 5%nat].
+  clean p /\ exists r, add_path p = Ring r [1%nat; 3%nat; 5%nat].
 Proof.
   cbv zeta. split.
   - split; [cbn; lia|]. cbn. repeat constructor; unfold nondeg; cbn; congruence.
